@@ -167,10 +167,11 @@ Proof.
       cbn [negb orb] in Hmoof. destruct (moof_pre cs); try discriminate. exact Hres.
     + (* unknown *)
       destruct (rdB (payload_len h) r) as [[p r']| | |] eqn:Ep; try discriminate.
-      injection H as <- <-. cbn [exact_box] in Hex. apply N.eqb_eq in Hex.
+      injection H as <- <-.
       destruct (rdB_spec _ _ _ _ Hokr Ep) as (-> & _ & _ & Hokr').
-      destruct Hshape as [[_ ->]|[Hl _]]; [|lia].
-      cbn [raw_box]. eexists; split; [reflexivity|]. split; [|assumption]. now rewrite <- app_assoc.
+      cbn [raw_box].
+      destruct Hshape as [[Hl ->]|[Hl ->]]; rewrite Hl; cbn [N.ltb N.compare Pos.compare Pos.compare_cont];
+        (eexists; split; [reflexivity|]; split; [|assumption]; now rewrite <- app_assoc).
 Qed.
 
 Lemma children_step f : box_stmt f -> children_stmt f -> children_stmt (S f).
